@@ -54,6 +54,8 @@ func init() {
 }
 
 func runC13(c *Ctx, r *Report) {
+	r.Rule("C13/no-shadow", "network.Driver re-declares no same-typed setting of the generic driver it embeds (FailedWhenContains stays one setting)", 1)
+	checkNoShadowedSettings(c, r, "C13/no-shadow")
 	r.Rule("C13/fresh-operation", "generic.NewOperation and network.NewOperation hand every caller a freshly allocated options object", 2)
 	checkFreshOperation(c, r, "C13/fresh-operation", []string{"driver/generic", "driver/network"})
 	r.Rule("C13/precedence", "the driver failure list is used exactly when the operation list is empty, and that list is given to NewResponse", 6)
